@@ -16,8 +16,11 @@ def main():
     a = ap.parse_args()
     import trie
 
-    if not trie.__file__.startswith("/repo/"):
-        print("harness error: trie is not imported from /repo", file=sys.stderr)
+    # checks always run the library in /repo's working tree; MCX_REPO names another checkout (with PYTHONPATH pointing
+    # at it) for the mutant campaign only
+    repo = os.environ.get("MCX_REPO") or "/repo"
+    if not trie.__file__.startswith(repo.rstrip("/") + "/"):
+        print(f"harness error: trie is imported from {trie.__file__}, not from {repo}", file=sys.stderr)
         return 2
     if a.selftest:
         from . import selftest
